@@ -24,19 +24,19 @@ def simcheck(design, text, technique="stateful property-based testing (rapid) of
 
 CHECKS.update({
     "C01": simcheck("§4 C01", "Generated races of conflicting completions, creations, reads, searches, registrations, claims, time-outs, faults and crashes on 3 ids; oracle I1-I4: rows never vanish, creation half frozen, one transition out of pending, then frozen; every promise leaving the server (responses, search hits, claim payloads, notifications) agrees with the stored row at that instant."),
-    "C02": simcheck("§4 C02", "Generated workloads of all 17 request kinds over shared ids under every configuration knob and schedule (holds, batches, faults). Oracle (self-differential, atomic-snapshot explanation): every request's response and own effect must be reproduced by running the real coroutine alone on a committed snapshot of its window at a clock value of its window; failed requests must have left nothing or exactly the sequential effect; an effect sits in one transaction; a time-out the explaining run relies on must really be stored by the time of the response; every lock / schedule / task / registration record a response carries must equal a stored row of its window (R1, judged against the database, so also sequentially-wrong answers are seen); every write of the four self-contained background sweeps must be what that sweep writes when run alone on the state it found (an effect acknowledged to a request must not be undone by a sweep deciding on stale rows; F20 is the one listed case). A pass is a constructive linearization. Blind to sequentially-wrong behaviour by design (covered by C03/C04/C07/C09/C10). Found F15 (repaired).",
+    "C02": simcheck("§4 C02", "Generated workloads of all 17 request kinds over shared ids under every configuration knob and schedule (holds, batches, faults). Oracle (self-differential, atomic-snapshot explanation): every request's response and own effect must be reproduced by running the real coroutine alone on a committed snapshot of its window at a clock value of its window; failed requests must have left nothing or exactly the sequential effect; an effect sits in one transaction; a time-out the explaining run relies on must really be stored by the time of the response; every lock / schedule / task / registration record a response carries must equal a stored row of its window (R1, judged against the database, so also sequentially-wrong answers are seen); every write of the four self-contained background sweeps must be what that sweep writes when run alone on the state it found (an effect acknowledged to a request must not be undone by a sweep deciding on stale rows; F20 and F21 are the listed cases); and, since the reference is the sequential SPEC, the statement-derived oracles of C01, C03-C05, C07-C10 count on this workload as well (findings listed under those properties are left to their checks). A pass is a constructive linearization. Blind to sequentially-wrong behaviour by design (covered by C03/C04/C07/C09/C10). Found F15 (repaired).",
                     technique="stateful property-based testing (rapid) with a differential oracle: concurrent run vs. the same coroutine run alone on the per-transaction snapshot"),
-    "C03": simcheck("§4 C03", "Generated histories of create / create-with-task / complete on 1-2 ids crossed with key, strict, state, timing around the deadline, plus exact retries (after response, after lost response, racing, after crash); oracle: status table written from the statement and justified by a committed state inside the request window; at most one creation, one completion and one invocation task per id; no repeat changes a row. Tier (b): sequential histories of create / create-with-task / complete on one id through HTTP and gRPC of a real server, judged against an executable reference model of the statement and the database file (the path of key, strict flag and requested state through both front ends)."),
-    "C04": simcheck("§4 C04", "Generated deadlines on the tick grid with requests and sweeps landing before/at/after them; oracle O1-O4: no pending answer at or after the deadline, no time-out stored or reported before it, timed-out rows have empty value / no key / completed_on = timeout / resolve-on-timeout honoured, caller state never installed at or after the deadline. F13 (new promise already overdue answered 201 PENDING) is a listed known finding."),
+    "C03": simcheck("§4 C03", "Generated histories of create / create-with-task / complete on 1-2 ids crossed with key, strict, state, timing around the deadline, plus exact retries (after response, after lost response, racing, after crash); oracle: status table written from the statement and justified by a committed state inside the request window; at most one creation, one completion and one invocation task per id; no repeat changes a row, and a time-out that a create/complete lets take effect is exactly the time-out (R4). Tier (b): sequential histories of create / create-with-task / complete on one id through HTTP and gRPC of a real server, judged against an executable reference model of the statement and the database file (the path of key, strict flag and requested state through both front ends)."),
+    "C04": simcheck("§4 C04", "Generated deadlines on the tick grid with requests and sweeps landing before/at/after them; oracle O1-O4: no pending answer at or after the deadline, no time-out stored or reported before it, timed-out rows AND every timed-out promise a response carries have empty value / no key / completed_on = timeout / resolve-on-timeout honoured, caller state never installed at or after the deadline. F13 (new promise already overdue answered 201 PENDING) is a listed known finding."),
     "C06": dict(engine="sim", category="fault_enumeration", design="§4 C06",
                 technique="property-based testing with crash-point enumeration: each generated case is re-run from its recorded decisions once per crash opportunity; invariant oracle over snapshots before/after restart",
-                text="Tier (a): every generated case (workload + schedule) is executed once to count its crash opportunities (before/after every store commit, between any two coroutine steps, inside background sweeps, at flush ends) and then re-executed from the recorded decisions with a crash at each of them (all of them when <= cap, evenly sampled otherwise; thorough cap 400), followed by a deterministic recovery on the same database file with an optional second crash. Oracle D1-D4: acknowledged => committed, restart changes nothing, no committed state is torn (registrations of completed promises, routed promise without task, request effect spread over two transactions), the stored backlog is worked off after restart unless the sweep concerned runs at full speed (capacity); the recovery includes a downtime, and whatever the other properties' statement-derived oracles object to in the crashed-and-recovered run but not in the crash-free run of the same case counts as a loss across the restart; commit failures (ambiguous outcome) are injected as well. Tier (b): real process, default store configuration, SIGKILL under load / SIGTERM / SIGINT, 1-3 kill-restart rounds, read-back of every acknowledged create/complete/subscription/schedule/lock, torn-state check on the database file, background sweep resumes.",
+                text="Tier (a): every generated case (workload + schedule) is executed once to count its crash opportunities (before/after every store commit, between any two coroutine steps, inside background sweeps, at flush ends) and then re-executed from the recorded decisions with a crash at each of them (all of them when <= cap, evenly sampled otherwise; thorough cap 400), followed by a deterministic recovery on the same database file with an optional second crash. Oracle D1-D4: acknowledged => committed, restart changes nothing, no committed state is torn (registrations of completed promises, routed promise without task, request effect spread over two transactions), the stored backlog is worked off after restart unless the sweep concerned runs at full speed (capacity); the recovery includes a downtime, and whatever the other properties' statement-derived oracles object to in the crashed-and-recovered run but not in the crash-free run of the same case counts as a loss across the restart; commit failures (ambiguous outcome) are injected as well. Tier (b): real process, default store configuration, SIGKILL under load / SIGTERM / SIGINT, 1-3 kill-restart rounds, read-back of every acknowledged create/complete/subscription/schedule/lock, torn-state check on the database file, background sweep resumes; now and then the first start attempt meets a database another process holds locked: it may fail, the file may not vanish.",
                 note=SIM_NOTE + " SQLite's fsync/atomic-commit is trusted: a 'crash' drops the kernel with everything in flight and reopens the file. Tier (b) runs a real `resonate serve` (default store configuration) that is SIGKILLed at a drawn wall-clock instant under load or shut down with SIGTERM/SIGINT, restarted on the same file, and every acknowledged write read back (not reproducible in its timing; acknowledged set and server log are saved)."),
     "C07": simcheck("§4 C07", "Generated claim/complete/heartbeat traffic of two workers with current, stale and future counters against lease sweeps, dispatch cycles and promise completion; oracle T1-T6: claims only from unclaimed+matching counter, one success per (task,counter), counters monotone, finished is final, a holder loses the task only after its guaranteed lease (claim / create-with-task or last heartbeat committed before the lease end, + the ttl the holder asked for, not the stored column), by its own completion, task time-out or promise completion; refusals justified by a committed state in the window."),
     "C08": simcheck("§4 C08", "Generated routed/unrouted creations, create-with-task, registrations, completions and claims with the real sender worker and every hand-off outcome, router failures and task batch sizes; oracle B1-B6: invocation task born in the promise's transaction iff the tags route (reference predicate), outstanding tasks finished in the completing transaction, dispatch cycles pick only unclaimed tasks, one per root, none with an enqueued/claimed sibling, enqueued only after success, failed hand-off => attempt+1 and later retry, notify finished after its first attempt, message names (id,counter,links), and every task transition has a cause. Found F18 and F19 (repaired)."),
     "C09": simcheck("§4 C09", "Generated acquire/release/heartbeat of 3 executions x 2 processes on 2 resources with ttl 0..3s, sweeps and clock steps onto lease ends; oracle L1-L5: every response decided on the pre-state of its transaction by a reference model from the statement; the locks table changes only by the holder's release / re-acquire, its process's heartbeat (lease = clock + ttl), or expiry at a tick >= lease end."),
-    "C10": simcheck("§4 C10", "Generated schedules (cron grammar, id templates), clock jumps over many occurrences, schedule batch sizes, create/delete/re-create and user-created occurrence promises racing the cycle, faults and crashes; oracle S1-S4 with an independent robfig/cron computation and reference template expansion: occurrences fire once, in order, never early, promise + advance in one transaction, correct promise fields, nothing fires for a deleted incarnation's later occurrences; create/delete answers justified by the stored schedule of the request window (idempotent by key)."),
-    "C11": simcheck("§4 C11", "Phase 1 builds a reachable backlog without background work, the clock jumps, the kernel restarts with all five background coroutines (registration order permuted) and a configuration drawn over the documented ranges down to batch sizes and coroutine pool of one; a finite failure phase; then cycles (clock + signal timeout, ticks until settled). Oracle: the statement's quiescence predicates (each compared with the clock of an earlier cycle) hold once a bound computed from all pending work / batch sizes has passed, every cycle settles, every background coroutine keeps being started while idle, no task stays dispatchable beyond its bound. Workloads are kept below service capacity (schedule periods >= 60 s, scheduled promises not overdue) so that lag cannot grow without a defect. Found F12 (repaired)."),
+    "C10": simcheck("§4 C10", "Generated schedules (cron grammar, id templates, an id with markup characters, promise tags that route so that firings take the create-with-task path), clock jumps over many occurrences, schedule batch sizes, create/delete/re-create and user-created occurrence promises racing the cycle, faults and crashes; oracle S1-S4 with an independent robfig/cron computation and reference template expansion: occurrences fire once, in order, never early, promise + advance in one transaction, correct promise fields, nothing fires for a deleted incarnation's later occurrences; create/delete answers justified by the stored schedule of the request window (idempotent by key)."),
+    "C11": simcheck("§4 C11", "Phase 1 builds a reachable backlog without background work, the clock jumps, the kernel restarts with all five background coroutines (registration order permuted) and a configuration drawn over the documented ranges down to batch sizes and coroutine pool of one; a finite failure phase; then cycles (clock + signal timeout, ticks until settled). Oracle: the statement's quiescence predicates (each compared with the clock of an earlier cycle) hold once a bound computed from all pending work / batch sizes has passed, every cycle settles, every background coroutine keeps being started while idle, no task stays dispatchable beyond its bound. Workloads are kept below service capacity (schedule periods >= 60 s, scheduled promises not overdue) so that lag cannot grow without a defect. Tier (b), production queues: api + aio + sqlite store subsystem (real worker) with completion / submission queues of 1..8, sweeps with batches up to 100, clock owned by the harness: every Tick returns (watchdog) and the backlog of overdue promises and locks is worked off. Found F12 (repaired)."),
     "C14": simcheck("§4 C14", "Generated populations, queries (wildcards, state subsets, tags, limits relative to the match count) and full cursor traversals through encode->token->decode with creations, completions, deletions and time-outs interleaved; oracle R1-R6: returned items match (id pattern, state mask, tags) in the state the page was computed from and carry that state, the cursor keeps the query, no duplicates, newest-first by sort id, page size and cursor presence (populations larger than the largest page included), the server's own cursor is accepted by the API layer both front ends use, everything that matched throughout a completed traversal is returned, overdue promises never reported pending, tampered tokens rejected."),
     "C18": dict(engine="pollt", category="exploration", design="§5 C18",
                 technique="model-based stateful property testing (rapid state machine) of the production PollWorker loop on harness-owned channels against a reference model; plus a wire-level run with real SSE clients",
@@ -44,15 +44,15 @@ CHECKS.update({
                 note="(a) runs the real PollWorker.Start loop in one goroutine on channels the harness owns (hook VerifLoop only constructs it) and synchronises through barrier messages sent down the same channel, so outcomes are deterministic; the HTTP handler and real network timing are only covered by (b), which samples real scheduling; time-outs there are classified inconclusive, never a violation. The random choice among group members is judged by a validity predicate."),
     "C19": dict(engine="route", category="exploration", design="§5 C19",
                 technique="property-based testing (rapid) of the real router and sender worker against an independent reference resolution written from the statement",
-                text="Routing tag values from a JSON-aware grammar plus free strings, source tables (order, default), target tables overlapping URL-looking names, plugin availability, task kind and hand-off outcome; the promise goes through router.New/Process, the recv through sender.New's target table and SenderWorker.Process with recording plugins. Oracle: route/no-route and logical/physical classification, (transport, data) resolution, message body naming task id/counter/links or the promise, exactly one completion per submission, success only when a transport accepted. Found F6 (tag value null crashes the router), repaired.",
+                text="Routing tag values from a JSON-aware grammar plus free strings, source tables (order, default), target tables overlapping URL-looking names, plugin availability, task kind and hand-off outcome; the promise goes through router.New/Process, the recv through sender.New's target table and SenderWorker.Process with recording plugins. Oracle: route/no-route and logical/physical classification, (transport, data) resolution, message body naming task id/counter/links or the promise, exactly one completion per submission, success only when a transport accepted. Tier (b): the production sender with the PRODUCTION http plugin in front of local HTTP receivers, sequences of hand-offs through one worker (receivers with and without url, per-message headers, 200/503): one POST at the receiver's url with exactly its headers, success iff 200, a receiver without a usable url is a failed hand-off and nobody receives anything. Found F6 (tag value null crashes the router), repaired.",
                 note="Recording plugins stand in for the poll/http transports (those are C18 and C13/C20). JSON field names are matched case-insensitively like Go's decoder (the statement is silent). Receiver data is compared as JSON values."),
     "C12": dict(engine="kernelq", category="exploration", design="§5 C12",
                 technique="stateful property testing (rapid state machine) of the production api/aio queues and system.Tick with a harness-stepped subsystem; plus a goroutine stress run judged after Loop returned",
-                text="(a) deterministic: one goroutine drives submit / burst / tick / complete-one / shutdown on the production internal/api queue, internal/aio completion queue and system.Tick with every size (api queue, completion queue, subsystem queue, coroutine pool, batch sizes) down to 1; oracle: exactly one answer per request at quiescence, door refusals only when the queue can be full (occupancy interval), shutting-down for requests after Shutdown, payload echoed to its own request, Done() reached after Shutdown with everything accepted answered, also when Shutdown meets an idle system; a Tick that does not return within 5 s is a violation (the kernel is the only consumer of its queues); store.Process answers every submission of a batch exactly once, in order, with its own result. (b) stress: real clients, echo + sqlite workers (1 ns tx timeout => natural failures), Loop and Shutdown; judged after Loop and all clients returned: no request answered twice or never.",
+                text="(a) deterministic: one goroutine drives submit / burst / tick / complete-one / shutdown on the production internal/api queue, internal/aio completion queue and system.Tick with every size (api queue, completion queue, subsystem queue, coroutine pool, batch sizes) down to 1; oracle: exactly one answer per request at quiescence, door refusals only when the queue can be full (occupancy interval), shutting-down for requests after Shutdown, payload echoed to its own request, Done() reached after Shutdown with everything accepted answered, also when Shutdown meets an idle system; a Tick that does not return within 5 s is a violation (the kernel is the only consumer of its queues); store.Process answers every submission of a batch exactly once, in order, with its own result; the kernel's refusals (shutting down, queues full: errors without a cause) are rendered as responses by every endpoint of both front ends (exhaustive). (b) stress: real clients, echo + sqlite workers (1 ns tx timeout => natural failures), Loop and Shutdown; judged after Loop and all clients returned: no request answered twice or never.",
                 note="(b) samples Go scheduler interleavings (not reproducible; its seed only selects sizes); a run whose clients or Loop do not return in 30 s is classified inconclusive, not a violation. Reading suggests a window between the a.done check in EnqueueSQE and Loop's exit (F16); it was not observed and is therefore not a listed finding."),
     "C13": dict(engine="proc", category="exploration", design="§5 C13",
                 technique="grammar + dictionary mutation fuzzing of a real server process over HTTP and gRPC, stateful poison-pill scenarios, restart on the same database, automatic bisection of a failing batch to a minimal request list",
-                text="A real `resonate serve` built from the tree. Generated batches of scenarios: valid skeletons of every endpoint of both protocols x one mutation (absent, empty, null, negative, 0, +-2^31, +-2^63, 1e100, wrong type, 64 KiB, hostile dictionary: JSON literals, template syntax, separators, receivers of every shape, URLs, cron oddities, forged/damaged cursors), stateful scenarios that store hostile data and trigger its later processing (routing, time-out, registration conversion + dispatch through the real sender/poll/http plugins, schedule firing), and status walks: ordinary client behaviour the kernel must refuse (task / lock / promise / schedule / registration refusals) through both protocols. After each batch: > 10 background cycles, health check, kill, restart on the same file, cycles, health check. Oracle: process alive and answering, background dispatch still alive (a probe promise routed to a poll listener is delivered after the batch), every request answered, certainly-invalid requests answered 400/InvalidArgument leaving no row, no 5xx for client input. A death or wedge is bisected on fresh servers to a minimal request list within a time budget (rapid's own shrinking is off for this engine). Found and repaired F2, F4, F7, F8, F9, F10 (and F6, F11 through C19/C18).",
+                text="A real `resonate serve` built from the tree. Generated batches of scenarios: valid skeletons of every endpoint of both protocols x one mutation (absent, empty, null, negative, 0, +-2^31, +-2^63, 1e100, wrong type, 64 KiB, hostile dictionary: JSON literals, template syntax, separators, receivers of every shape, URLs, cron oddities, forged/damaged cursors), stateful scenarios that store hostile data and trigger its later processing (routing, time-out, registration conversion + dispatch through the real sender/poll/http plugins, schedule firing), status walks: ordinary client behaviour the kernel must refuse (task / lock / promise / schedule / registration refusals) through both protocols; and overload rounds (servers started with an api queue or coroutine pool of 1, bursts of reads over both protocols: every request answered, process alive). After each batch: > 10 background cycles, health check, kill, restart on the same file, cycles, health check. Oracle: process alive and answering, background dispatch still alive (a probe promise routed to a poll listener is delivered after the batch), every request answered, certainly-invalid requests answered 400/InvalidArgument leaving no row, no 5xx for client input. A death or wedge is bisected on fresh servers to a minimal request list within a time budget (rapid's own shrinking is off for this engine). Found and repaired F2, F4, F7, F8, F9, F10 (and F6, F11 through C19/C18).",
                 note="Timing is wall-clock (background cycle 200 ms, waits of 2.6 s / 1.5 s); a slow machine can make a health check miss a deadline: such runs show as wedge reports whose bisection does not reproduce. The dictionary is the corpus; absence of further crashes is not established."),
     "C20": dict(engine="proc", category="exploration", design="§5 C20",
                 technique="property-based round-trip testing (rapid) against a real server process: write through one protocol, read through both, incl. messages received by a real poll listener, and again after a restart",
@@ -109,8 +109,11 @@ def main():
             "level_note": c["note"],
             "technique": c["technique"],
         })
+    stage_pkgs = {}
+    for pid_, spec_ in m.props(lambda pkg, test, quick, thorough, level="exploration", regress=None, extra_env=None, also=None: dict(pkg=pkg, also=also or [])).items():
+        stage_pkgs[pid_] = {spec_["pkg"]} | {a["pkg"] for a in spec_["also"]}
     for e in ENGINES:
-        e["serves_properties"] = sorted(p for p, c in CHECKS.items() if c["engine"] == e["name"])
+        e["serves_properties"] = sorted(p for p, c in CHECKS.items() if c["engine"] == e["name"] or e["name"] in stage_pkgs.get(p, ()))
     repo_fix_commits = []
     try:
         import subprocess
